@@ -32,6 +32,10 @@ pub struct Vertex {
 }
 
 impl Vertex {
+    /// Above this amplification of the rounding errors, the intersection of the three planes
+    /// of a new vertex is no longer trusted to lie on the edge it was created on.
+    const MAX_ERROR_FACTOR: f64 = 1e6;
+
     fn from_dual(
         i: usize,
         j: usize,
@@ -41,13 +45,30 @@ impl Vertex {
         dimensionality: Dimensionality,
         grid_spacing: f64,
     ) -> Self {
-        let loc =
-            intersect_planes(&half_spaces[i].plane, &half_spaces[j].plane, &half_spaces[k].plane);
-        let d_loc = match dimensionality {
-            Dimensionality::OneD => DVec3::new(loc.x, 0., 0.),
-            Dimensionality::TwoD => DVec3::new(loc.x, loc.y, 0.),
-            Dimensionality::ThreeD => loc,
-        };
+        Self::from_dual_on_edge(i, j, k, half_spaces, gen_loc, dimensionality, grid_spacing, || {
+            None
+        })
+    }
+
+    /// Create the vertex at the intersection of the half spaces `i`, `j` and `k`.
+    ///
+    /// `edge` lazily provides the end points (kept, removed) of the edge of the cell (on
+    /// the half spaces `i` and `j`) that is cut by the new half space `k`. The new vertex
+    /// lies on that edge. When the three planes are (nearly) linearly dependent (the new
+    /// plane contains the edge up to rounding, as happens for co-spherical generators),
+    /// their intersection is ill-defined and may end up arbitrarily far along the line of
+    /// the edge, so it is brought back onto the edge in that case.
+    #[allow(clippy::too_many_arguments)]
+    fn from_dual_on_edge(
+        i: usize,
+        j: usize,
+        k: usize,
+        half_spaces: &[HalfSpace],
+        gen_loc: DVec3,
+        dimensionality: Dimensionality,
+        grid_spacing: f64,
+        edge: impl FnOnce() -> Option<(DVec3, DVec3)>,
+    ) -> Self {
         let det = glam::DMat3::from_cols(
             half_spaces[i].plane.n,
             half_spaces[j].plane.n,
@@ -55,10 +76,48 @@ impl Vertex {
         )
         .determinant();
         let error_factor = (1. / det.abs()).max(1.);
+        let edge = if error_factor > Self::MAX_ERROR_FACTOR {
+            edge()
+        } else {
+            None
+        };
+        // The distance over which the vertex was moved to bring it back onto its edge.
+        let mut displacement = 0.;
+        let loc = match edge {
+            Some((kept, removed)) => {
+                let edge = removed - kept;
+                if det != 0. {
+                    let loc = intersect_planes(
+                        &half_spaces[i].plane,
+                        &half_spaces[j].plane,
+                        &half_spaces[k].plane,
+                    );
+                    let t = (loc - kept).dot(edge) / edge.length_squared();
+                    let t = if t.is_finite() { t.clamp(0., 1.) } else { 0. };
+                    let distance = loc.distance(kept + t * edge);
+                    displacement = if distance.is_finite() { distance } else { f64::MAX };
+                    kept + t * edge
+                } else {
+                    displacement = edge.length();
+                    kept
+                }
+            }
+            None => intersect_planes(
+                &half_spaces[i].plane,
+                &half_spaces[j].plane,
+                &half_spaces[k].plane,
+            ),
+        };
+        let d_loc = match dimensionality {
+            Dimensionality::OneD => DVec3::new(loc.x, 0., 0.),
+            Dimensionality::TwoD => DVec3::new(loc.x, loc.y, 0.),
+            Dimensionality::ThreeD => loc,
+        };
         let snap_error = error_factor
             * (half_spaces[i].snap_error(loc, gen_loc, grid_spacing)
                 + half_spaces[j].snap_error(loc, gen_loc, grid_spacing)
-                + half_spaces[k].snap_error(loc, gen_loc, grid_spacing));
+                + half_spaces[k].snap_error(loc, gen_loc, grid_spacing))
+            + displacement;
         Vertex {
             loc,
             dual: [i, j, k],
@@ -174,8 +233,13 @@ impl DecompositionWithoutFaces {
             let cur_plane = &convex_cell.clipping_planes[self.cur_vertex.dual[i]].plane;
             let next_plane = &convex_cell.clipping_planes[self.cur_vertex.dual[(i + 1) % 3]].plane;
             self.projections[2 * i] = cur_plane.project_onto(convex_cell.loc);
-            self.projections[2 * i + 1] =
-                next_plane.project_onto_intersection(cur_plane, convex_cell.loc);
+            // Two of the planes of a vertex on linearly dependent planes may be parallel up to
+            // rounding, in which case they do not have a line of intersection to project onto.
+            self.projections[2 * i + 1] = if cur_plane.n.cross(next_plane.n) == DVec3::ZERO {
+                self.projections[2 * i]
+            } else {
+                next_plane.project_onto_intersection(cur_plane, convex_cell.loc)
+            };
         }
     }
 
@@ -443,11 +507,20 @@ impl ConvexCell<WithoutFaces> {
             Self::compute_boundary(&mut self.boundary, &mut self.vertices[num_v..]);
             let mut boundary = self.boundary.iter().take(self.boundary.len + 1);
             // finally we can *realy* remove the vertices.
-            self.vertices.truncate(num_v);
+            let removed = self.vertices.split_off(num_v);
             // Add new vertices constructed from the new clipping plane and the boundary
             let mut cur = boundary.next().expect("Boundary contains at least 3 elements");
             for next in boundary {
-                self.vertices.push(Vertex::from_dual(
+                // The new vertex lies on the edge (on the planes `cur` and `next`) between a
+                // removed vertex and one that is kept.
+                let on_edge = |vertices: &[Vertex]| {
+                    vertices
+                        .iter()
+                        .find(|v| v.dual.contains(&cur) && v.dual.contains(&next))
+                        .map(|v| v.loc)
+                };
+                let edge = || Some((on_edge(&self.vertices[..num_v])?, on_edge(&removed)?));
+                let vertex = Vertex::from_dual_on_edge(
                     cur,
                     next,
                     p_idx,
@@ -455,7 +528,9 @@ impl ConvexCell<WithoutFaces> {
                     self.loc,
                     simulation_boundary.dimensionality,
                     simulation_boundary.grid_spacing,
-                ));
+                    edge,
+                );
+                self.vertices.push(vertex);
                 cur = next;
             }
             self.update_safety_radius();
